@@ -20,10 +20,12 @@ import (
 	"path/filepath"
 	"sort"
 	"strings"
+	"syscall"
 	"testing"
 
 	"github.com/containerd/containerd/v2/core/snapshots"
 	"github.com/containerd/stargz-snapshotter/internal/verifutil"
+	"github.com/moby/sys/mountinfo"
 )
 
 type verifImage struct {
@@ -43,6 +45,8 @@ type verifCrash struct {
 	nimg    int
 	curOp   *verifOp
 	curB    *verifView
+	// plant real bind mounts on the crash images (needs root)
+	kernelMounts bool
 }
 
 func verifCopyTree(src, dst string) error {
@@ -68,6 +72,79 @@ func verifCopyTree(src, dst string) error {
 		}
 		return os.WriteFile(to, b, 0o600)
 	})
+}
+
+// ---- leftover kernel mounts (needs root): what a killed process leaves behind ----
+
+// verifMountsBelow lists the kernel mountpoints below dir.
+func verifMountsBelow(dir string) []string {
+	ms, err := mountinfo.GetMounts(mountinfo.PrefixFilter(dir))
+	if err != nil {
+		return nil
+	}
+	var l []string
+	for _, m := range ms {
+		l = append(l, m.Mountpoint)
+	}
+	sort.Strings(l)
+	return l
+}
+
+// verifLazyUnmountBelow detaches every mount below dir (deepest first); used in cleanup paths.
+func verifLazyUnmountBelow(dir string) {
+	for n := 0; n < 5; n++ {
+		l := verifMountsBelow(dir)
+		if len(l) == 0 {
+			return
+		}
+		for i := len(l) - 1; i >= 0; i-- {
+			syscall.Unmount(l[i], syscall.MNT_DETACH)
+		}
+	}
+}
+
+const verifKeepFile = "keep-me"
+
+// plantLeftoverMounts bind-mounts `src` onto directories of the crash image the way a killed
+// process leaves its backend mounts behind: (a) the fs directory of a committed remote snapshot,
+// (b) the fs directory of the unlabelled active snapshot of the call in flight, (c) orphan
+// directories (removed-but-undeleted ids, renamed-but-uncommitted ids, temporaries).
+func (c *verifCrash) plantLeftoverMounts(work, src string, img *verifImage, image *verifView) (planted []string) {
+	try := func(dir, kind string) {
+		mp := filepath.Join(work, "snapshots", dir, "fs")
+		if st, err := os.Stat(mp); err != nil || !st.IsDir() {
+			return
+		}
+		if err := syscall.Mount(src, mp, "none", syscall.MS_BIND, ""); err != nil {
+			c.e.out.Count("kmount/mount-failed")
+			return
+		}
+		planted = append(planted, mp)
+		c.e.out.Count("kmount/planted-" + kind)
+	}
+	for _, k := range image.order {
+		i := image.infos[k]
+		_, remote := i.labels[remoteLabel]
+		switch {
+		case remote && i.kind == snapshots.KindCommitted && c.e.rnd.Intn(100) < 60:
+			try(i.id, "committed-remote")
+		case !remote && i.kind == snapshots.KindActive && img.op.name == "prepare" && k == img.op.key:
+			try(i.id, "inflight-active")
+		}
+	}
+	for _, id := range image.ids {
+		if !image.hasID(id) {
+			try(id, "orphan")
+		}
+	}
+	if es, err := os.ReadDir(filepath.Join(work, "snapshots")); err == nil {
+		for _, en := range es {
+			if strings.HasPrefix(en.Name(), "new-") {
+				try(en.Name(), "temp")
+			}
+		}
+	}
+	return
 }
 
 func (c *verifCrash) onMarker(name string, occ int) {
@@ -127,6 +204,7 @@ func (c *verifCrash) restoreOne(img *verifImage, cfg [3]bool, mode int, ufRand b
 		if ie.sn != nil {
 			ie.sn.(*snapshotter).ms.Close()
 		}
+		verifLazyUnmountBelow(work)
 		os.RemoveAll(work)
 	}()
 	fail := func(sig, format string, a ...any) {
@@ -137,6 +215,37 @@ func (c *verifCrash) restoreOne(img *verifImage, cfg [3]bool, mode int, ufRand b
 	main.out.Emit(fmt.Sprintf("fork %d %s %d", img.opIdx, img.marker, img.occ),
 		fmt.Sprintf("ok ls=%s meta=%s", verifLsStr(image.ids, image.temps), image.metaStr()))
 	c.ackCheck(img, image, fail)
+
+	// leftover kernel mounts of the dead process (root only; a restoring start must clear them)
+	var planted []string
+	src := ""
+	if c.kernelMounts && !cfg[1] && main.rnd.Intn(100) < 60 {
+		src = filepath.Join(c.scratch, fmt.Sprintf("src%d", c.nimg))
+		os.MkdirAll(src, 0o755)
+		os.WriteFile(filepath.Join(src, verifKeepFile), []byte("backing content"), 0o644)
+		defer os.RemoveAll(src)
+		defer verifLazyUnmountBelow(work) // runs before the RemoveAll(work) registered above
+		planted = c.plantLeftoverMounts(work, src, img, image)
+		if len(planted) > 0 {
+			main.out.Count("kmount/experiments")
+		}
+	}
+	checkKernel := func(when string) {
+		if len(planted) == 0 {
+			return
+		}
+		if l := verifMountsBelow(filepath.Join(work, "snapshots")); len(l) != 0 {
+			var rel []string
+			for _, m := range l {
+				r, _ := filepath.Rel(work, m)
+				rel = append(rel, r)
+			}
+			fail("leftover-kernel-mount-after-restart", "%s: still mounted below snapshots/: %v (planted %d)", when, rel, len(planted))
+		}
+		if b, err := os.ReadFile(filepath.Join(src, verifKeepFile)); err != nil || string(b) != "backing content" {
+			fail("stale-mount-content-destroyed", "%s: the content behind a leftover mount was deleted (RemoveAll descended through the mount): %v", when, err)
+		}
+	}
 
 	// Mount failure pattern of this start: none / some of the remote snapshots / all
 	orc := verifNoFaults()
@@ -152,6 +261,7 @@ func (c *verifCrash) restoreOne(img *verifImage, cfg [3]bool, mode int, ufRand b
 	}
 	res, _, after := ie.exec(&verifOp{name: "restart", labels: "-", cfg: cfg, crashRestart: true, orc: orc})
 	main.out.Count("restore/" + res.class)
+	checkKernel("after the start")
 	main.out.Distinct(fmt.Sprintf("img/%s/%s/%s/%d/%d", img.marker, verifCfgStr(cfg), verifMfStr(orc), len(image.order), len(res.trace)))
 	if res.class != "ok" {
 		return
@@ -236,6 +346,7 @@ func (c *verifCrash) restoreOne(img *verifImage, cfg [3]bool, mode int, ufRand b
 	if r.class != "ok" || len(fin.ids) != 0 || fin.temps != 0 || len(ie.live) != 0 {
 		fail("acknowledged-snapshot-not-removable", "after removing everything: Cleanup -> %s, listing %s, %d live mounts", r.class, verifLsStr(fin.ids, fin.temps), len(ie.live))
 	}
+	checkKernel("after removing everything")
 }
 
 func verifMfStr(o *verifOracle) string {
@@ -298,6 +409,24 @@ func TestVerifC09(t *testing.T) {
 	e := verifNewEnv(t, "C09")
 	defer e.finish()
 	c := &verifCrash{e: e, scratch: t.TempDir(), prob: 1000}
+	c.kernelMounts = os.Geteuid() == 0 && verifutil.EnvInt("VERIF_KMOUNT", 1) == 1
+	if c.kernelMounts {
+		// probe: bind mounts may be forbidden even for root (no CAP_SYS_ADMIN)
+		a, b := filepath.Join(c.scratch, "probe-a"), filepath.Join(c.scratch, "probe-b")
+		os.MkdirAll(a, 0o755)
+		os.MkdirAll(b, 0o755)
+		if err := syscall.Mount(a, b, "none", syscall.MS_BIND, ""); err != nil {
+			c.kernelMounts = false
+		} else {
+			syscall.Unmount(b, syscall.MNT_DETACH)
+		}
+	}
+	if c.kernelMounts {
+		e.out.Count("kmount/stream-ran")
+	} else {
+		e.out.Count("kmount/stream-skipped-not-root")
+	}
+	defer verifLazyUnmountBelow(c.scratch)
 	e.onMarker = c.onMarker
 	e.onHistoryEnd = c.restoreAll
 	e.scenarios(nil)
